@@ -5,22 +5,39 @@
   with the nesting counter of fix 8030c9f) and the two Ref-chasing evaluation loops
   `Hs.FLoops.weqLoop` (`WildcardEq::eval`) and `Hs.FLoops.relLoop` (`Namespace::has_relationship`).
   Outcomes `panic` / `diverge` (fuel ran out) / `depth` are what the property forbids.
+
+  Proof structure of the parser's totality (`C09_parse_total_holds`; helper lemmas in
+  `Hs/Lemmas/FilterTotal2*.lean`, built on the scanner and scalar-reader lemmas of C03, `Hs/Lemmas/ZincTotal*.lean`):
+  * `Scan.mu s` = stash + unread input + 1 while `eof` is false (the `unread` of `Hs.Lemmas.FilterTotal`).
+    Every scanner primitive and every scalar reader is non-increasing in `mu` and needs fuel `> mu`;
+    `parse_number_date_time`'s reset `eof := false` merely restores the value `mu` had on entry.
+  * The parser swallows lexer errors and goes on with the scanner where the failed reader stopped
+    (`Hs.Model.FilterLexErr`): for every `…Err` function `mu` is no larger than at the reader's start
+    (`FilterTotal2Err`).
+  * `Lexer::read` (`lexRead`, with `greater_or_less`, `parse_path` and the identifier arm): no `panic`/`depth`,
+    `diverge` only when `fuel ≤ mu + 1`, `mu` does not grow on `Ok` or `Err`, a token read away from the end of
+    the input consumes at least one byte, the token `none` only comes with `eof`
+    (`FilterTotal2Lex`; here `filterLexRead_total`, `filterLexRead_progress`).
+  * parser: `FLex.M l = mu + [cur ≠ none]`.  A `read` never increases it (the token is paid for by the bytes it
+    consumed; after a swallowed error the token is unchanged).  By mutual induction on the fuel every function
+    of the parser's `mutual` block needs fuel at most `8 * M + c`, `c ≤ 13` — an `or`/`and` iteration consumes
+    the operator token, a group consumes its `(` — so `fuelFor n = 8 n + 64` suffices
+    (`FilterTotal2Parse`: `Specs`, `specsAll`, `parseFilter_spec`).
 -/
 import Hs.Model.FilterText
 import Hs.Lemmas.FilterLoops
 import Hs.Lemmas.FilterTotal
+import Hs.Lemmas.FilterTotal2Parse
 namespace Hs.C09
 open Hs Hs.FText Hs.FLoops
 
 /-- The property's first sentence at full strength: for every byte string the parser's outcome is
-a filter or an error.  Proved below: the nesting bound (`parse_depth_bound`, `parse_depth_step`);
-every byte loop of the lexer and every scalar reader except the numeric one ends with a value or an
-error once the fuel exceeds the unread bytes (`lexer_loops_total`, `scalar_readers_total`); the
-formerly crashing inputs are errors.  Not yet proved for all inputs: the composition inside
-`parse_number_date_time` (its loops are covered, its look-ahead bookkeeping is not), the "at least
-one byte per token" progress of `Lexer::read`, and from it that the parser's fuel
-`fuelFor n = 8n + 64` always suffices; on these points the claim rests on the correspondence runs,
-where the model's outcome is compared with the implementation's on every input. -/
+a filter or an error.  Proved in full as `C09_parse_total_holds` below: no function of the lexer or of
+the parser has a `panic` or `depth` outcome for any fuel and any state (`parse_never_panic`,
+`parse_never_depth`, `filterLexRead_total`), every token read away from the end of the input consumes at
+least one byte and a failed read never moves the scanner back (`filterLexRead_progress`), and from that
+the parser's fuel `fuelFor n = 8n + 64` suffices for every input of `n` bytes (`parse_never_diverge`).
+The nesting bound is `parse_depth_bound` / `parse_depth_step`. -/
 def C09_parse_total : Prop :=
   ∀ bs : List UInt8,
     filterOfBytes bs ≠ .panic ∧ filterOfBytes bs ≠ .diverge ∧ filterOfBytes bs ≠ .depth
@@ -84,6 +101,79 @@ theorem scalar_readers_total (fuel : Nat) (s : Scan) (h : unread s < fuel) :
     FineLe s (Hs.Zinc.parseDecimal fuel s) ∧ FineLe s (Hs.Zinc.parseExponent fuel s) :=
   ⟨parseStr_fine fuel s h, parseUri_fine fuel s h, parseRef_fine fuel s h, parseSymbol_fine fuel s h,
    parseId_fine fuel s h, parseDecimal_fine fuel s h, parseExponent_fine fuel s h⟩
+
+/-! ### the lexer: total, and it makes progress -/
+
+/-- the measure of this file's earlier lemmas is the scanner measure of the totality proof -/
+theorem unread_eq_mu (s : Scan) : unread s = s.mu := by
+  simp [unread, Scan.mu, Scan.remaining]
+
+/-- `Lexer::read` never panics and never exceeds a depth limit, for any fuel and any scanner state; it does
+not run out of fuel once the fuel exceeds the unread bytes by two -/
+theorem filterLexRead_total (fuel : Nat) (s : Scan) :
+    lexRead fuel s ≠ .panic ∧ lexRead fuel s ≠ .depth ∧ (s.mu + 1 < fuel → lexRead fuel s ≠ .diverge) :=
+  ⟨(lexRead_spec fuel s).ne_panic, (lexRead_spec fuel s).ne_depth, fun h => (lexRead_spec fuel s).ne_diverge h⟩
+
+/-- the same with the fuel bound stated on the scanner's fields (stash + unread input) -/
+theorem filterLexRead_total_remaining (fuel : Nat) (s : Scan) (h : s.remaining + 2 < fuel) :
+    lexRead fuel s ≠ .panic ∧ lexRead fuel s ≠ .depth ∧ lexRead fuel s ≠ .diverge := by
+  have hm := Scan.mu_le_remaining s
+  exact ⟨(filterLexRead_total fuel s).1, (filterLexRead_total fuel s).2.1,
+    (filterLexRead_total fuel s).2.2 (by omega)⟩
+
+/-- progress of `Lexer::read`: a returned token leaves no more unread bytes than before, strictly fewer when
+the scanner was not at the end of the input; the token `none` is only returned at the end of the input; and a
+failed read (whose scanner state the parser keeps when it swallows the error) does not move the scanner back -/
+theorem filterLexRead_progress (fuel : Nat) (s : Scan) :
+    (∀ s' t, lexRead fuel s = .ok s' t →
+      s'.mu ≤ s.mu ∧ (s.eof = false → s'.mu < s.mu) ∧ (t = .none → s'.eof = true)) ∧
+    (∀ s', lexRead fuel s = .err s' → s'.mu ≤ s.mu) :=
+  ⟨fun _ _ e => (lexRead_spec fuel s).post_ok e, fun _ e => (lexRead_spec fuel s).post_err e⟩
+
+/-- at the end of the input the lexer returns the token `none` and leaves the scanner alone -/
+theorem filterLexRead_at_eof (fuel : Nat) (s : Scan) (he : s.eof = true) : lexRead (fuel + 1) s = .ok s .none :=
+  lexRead_at_eof fuel s he
+
+/-- the fuel hypotheses are satisfiable: the scanner `Parser::make` builds over `bs`, with the fuel the model
+uses for `bs` -/
+theorem fuel_make (bs : List UInt8) :
+    (Scan.make bs).mu + 1 < fuelFor bs.length ∧ (Scan.make bs).remaining + 2 < fuelFor bs.length := by
+  have h1 := Scan.mu_make bs
+  have h2 := Scan.remaining_le_mu (Scan.make bs)
+  have hf : fuelFor bs.length = 8 * bs.length + 64 := rfl
+  omega
+
+example : (Scan.make [97, 32, 61, 61, 32, 49]).mu + 1 < fuelFor 6 := by decide
+example : (Scan.make [97, 32, 61, 61, 32, 49]).eof = false := by decide
+
+/-! ### the parser: total -/
+
+/-- no `panic` outcome, for any fuel -/
+theorem parse_never_panic (fuel : Nat) (bs : List UInt8) : parseFilter fuel bs ≠ .panic :=
+  (parseFilter_fuel_spec fuel bs).ne_panic
+/-- no `depth` outcome, for any fuel (over-deep nesting is an ordinary error, `parse_depth_bound`) -/
+theorem parse_never_depth (fuel : Nat) (bs : List UInt8) : parseFilter fuel bs ≠ .depth :=
+  (parseFilter_fuel_spec fuel bs).ne_depth
+/-- fuel above `8 * length + 12` never runs out -/
+theorem parse_never_diverge (fuel : Nat) (bs : List UInt8) (h : 8 * bs.length + 12 < fuel) :
+    parseFilter fuel bs ≠ .diverge :=
+  (parseFilter_fuel_spec fuel bs).ne_diverge h
+
+example : 8 * (List.replicate 65 (40 : UInt8)).length + 12 < fuelFor (List.replicate 65 (40 : UInt8)).length := by
+  decide
+
+/-- the same for `parse_or` entered in any parser state at any depth: never `panic`/`depth`, the measure
+`FLex.M` (unread bytes + pending token) does not grow, and fuel above `8 * M + 12` never runs out -/
+theorem parseOr_total (fuel depth : Nat) (l : FLex) :
+    parseOr fuel depth l ≠ .panic ∧ parseOr fuel depth l ≠ .depth ∧
+    (8 * l.M + 12 < fuel → parseOr fuel depth l ≠ .diverge) ∧
+    (∀ o l', parseOr fuel depth l = .ok (o, l') → l'.M ≤ l.M) :=
+  ⟨(parseOr_spec fuel depth l).ne_panic, (parseOr_spec fuel depth l).ne_depth,
+   fun h => (parseOr_spec fuel depth l).ne_diverge h, fun _ _ e => (parseOr_spec fuel depth l).post e⟩
+
+/-- **C09, parser part**: `Filter::try_from` yields a filter or an error on every byte string. -/
+theorem C09_parse_total_holds : C09_parse_total := fun bs =>
+  ⟨(parseFilter_spec bs).ne_panic, (parseFilter_spec bs).ne_diverge Nat.zero_lt_one, (parseFilter_spec bs).ne_depth⟩
 
 /-- the hypothesis is satisfiable with the fuel the model uses: a fresh scanner over `bs` has at most
 `bs.length` unread bytes -/
@@ -176,5 +266,7 @@ theorem dangling_cmp : outcome (filterOfBytes (bytes "a ==")) = 1 := by decide +
 theorem unbalanced_open : outcome (filterOfBytes (bytes "((a)")) = 1 := by decide +kernel
 theorem unbalanced_close : outcome (filterOfBytes (bytes "(a))")) = 1 := by decide +kernel
 theorem empty_input : outcome (filterOfBytes []) = 1 := by decide +kernel
+/-- with too little fuel the model does report `diverge`: the fuel bound is not vacuous -/
+theorem small_fuel_diverges : outcome (parseFilter 3 (bytes "a and b")) = 3 := by decide +kernel
 
 end Hs.C09
